@@ -295,6 +295,10 @@ def ev_B(c) -> R:
         elif after:
             if got_c or got_l:
                 r.violation(sig + "|read-beyond-window", f"{label}: the tag lies wholly after the window and there is no snippet marker, yet lint reads {got_c} {got_l}")
+        elif end - len(c["ending"].encode()) <= 4096 and (got_c, got_l) != (want_c, want_l):
+            # only the line break lies behind the limit: every byte of the tag is inside the window
+            r.violation(f"B|{kind}|tag-ends-at-the-window-edge", f"{label}: the tag's text ends at byte {end - len(c['ending'].encode())} <= 4096, yet lint reads copyrights {got_c} "
+                                                               f"expressions {got_l}, expected {want_c} {want_l}")
         elif (got_c, got_l) not in ((want_c, want_l), ([], [])):
             r.violation(f"B|{kind}|tag-cut-by-the-window", f"{label}: the window ends inside the tag's line; lint reads copyrights {got_c} expressions {got_l} - "
                                                           f"neither the whole tag ({want_c} {want_l}) nor nothing")
